@@ -5,11 +5,13 @@ Reference notions for property C07 (Python-engine bibliography).  A reader has t
   (C05's resolution, missing keys dropped) and the database entries they denote;
 * `SortedBy`, `eqv` — what "sorted" and "equal keys" mean for a comparison `lt`;
 * `alphaProviso` — the decidable side condition under which the suffix letters of the alpha label
-  style make the labels pairwise distinct;
+  style make the labels pairwise distinct; `year2` — the year suffix of an alpha label;
 * `requiredNodes` — the `field`/`names` nodes of a template that are outside every `optional`;
   `Missing` — "evaluating left to right, the first node that fails is a `field`/`names` node
   named `f` whose lookup fails";
 * `printed` — the `field` nodes whose value is part of the output of a successful evaluation;
+  `printedN` — the name words (literal children of `name_part` nodes) that are part of it;
+  `abbrPieces`, `abbrPiece` — what `abbreviate()` cuts a text into and what it shows of a piece;
 * `endsInSentence` — a syntactic condition under which a non-empty output ends with `.`, `?`, `!`;
 * `protAtoms` — the brace-protected characters of a rich text.
 -/
@@ -57,11 +59,15 @@ def alphaProviso (labels : List Str) : Bool :=
       labels.all fun m => countOf labels m == 1 ||
         (List.range (countOf labels m)).all fun k => l != m ++ [suffixChar k])
 
+/-- the year suffix of an alpha label: `entry.fields["year"][-2:]`, nothing without a year -/
+def year2 (e : PEntry) : Str :=
+  if hasField e "year" then pySlice (getField e "year") (-2) ((getField e "year").length : Int) else []
+
 /-! ### required fields -/
 
 /-- the context in which the engine evaluates the template of entry `e` -/
 def ctxOf (es : List PEntry) (e : PEntry) (it : Item) : Ctx :=
-  { entry := e.toEntry, db := some (mkDb es), personTemplates := it.personTemplates }
+  { entry := e.toEntry, db := some (mkDb es), personTemplates := it.personTemplates, decode := it.decode }
 
 /-- a lookup a template node performs: `field(name)` reads a field (own or inherited through
 `crossref`, C14), `names(role)` reads the persons of a role of the entry itself -/
@@ -169,7 +175,7 @@ end
 /-- the atoms (with their markup) that are under `Protected` — braces in the field value -/
 def protAtoms (s : Flat) : Flat := s.filter fun x => Flat.isProt x.2
 
-/-- What `Text.from_latex(v)` denotes (`decode` = identity): the characters of `v` other than
+/-- What `LaTeXParser(v).parse()` denotes (`v` = the decoded value): the characters of `v` other than
 braces, each under one `Protected` per enclosing brace level (`d` = current level; a stray
 closing brace at level 0 cannot occur in a value that parses). -/
 def flatLatex (d : Nat) : Str → Flat
@@ -196,14 +202,14 @@ structure Occ where
   caseChanged : Bool
 deriving Repr
 
-/-- the value of a `field` node: the field (own or inherited), parsed by `Text.from_latex`
-(unless `raw`), passed through the node's `apply_func` -/
+/-- the value of a `field` node: the field (own or inherited), decoded by the codec and parsed
+(`Text.from_latex`, unless `raw`), passed through the node's `apply_func` -/
 def fieldValue (ctx : Ctx) (o : Occ) : Option RT :=
   match ctx.entry.findField o.name ctx.db with
   | none => none
   | some v =>
     if o.raw then some (applyFn o.fn (.str v))
-    else match fromLatex v with
+    else match fromLatex (decodeOf ctx.decode v) with
       | .error _ => none
       | .ok r => some (applyFn o.fn r)
 
@@ -252,5 +258,74 @@ end
 that changes case) up to the case of letters -/
 def Covers (caseChanged : Bool) (value out : Str) : Prop :=
   if caseChanged then lower value <:+: lower out else value <:+: out
+
+/-! ### name coverage -/
+
+/-- an occurrence of a name word: a literal child of a `name_part` node (the name-style templates
+`format_name(person, abbr)` are `join [name_part(…)[word, word, …], …]` with the words of the
+person as literal rich texts); `abbr`: the node abbreviates its children -/
+structure NOcc where
+  text : RT
+  abbr : Bool
+  caseChanged : Bool
+deriving Repr
+
+/-- what the output shows of the word: the word, or `word.abbreviate()` -/
+def NOcc.shown (o : NOcc) : RT := if o.abbr then abbreviate o.text else o.text
+
+/-- the literal children of a node -/
+def litsOf : List T → List RT
+  | [] => []
+  | .lit r :: ts => r :: litsOf ts
+  | _ :: ts => litsOf ts
+
+mutual
+/-- The name words that contribute to the output of a successful evaluation: the literal children
+of every `name_part` node on the evaluated path (same traversal as `printed`; in particular through
+the name templates a `names` node evaluates). -/
+def printedN : Nat → Ctx → T → List NOcc
+  | 0, _, _ => []
+  | fuel + 1, ctx, t =>
+    match t with
+    | .lit _ => []
+    | .raw _ => []
+    | .field _ _ _ => []
+    | .join _ _ _ cs => printedNL fuel ctx cs
+    | .together _ cs => printedNL fuel ctx cs
+    | .sentence cf cap _ _ cs => (printedNL fuel ctx cs).map fun o => { o with caseChanged := o.caseChanged || cf || cap }
+    | .names role _ _ _ =>
+      match (ctx.personTemplates.find? fun p => lower p.1 = lower role) with
+      | none => []
+      | some (_, ts) => printedNL fuel ctx ts
+    | .optional cs =>
+      match evalList fuel ctx cs with
+      | .ok _ => printedNL fuel ctx cs
+      | .error _ => []
+    | .firstOf cs => printedNF fuel ctx cs
+    | .tag _ cs => printedNL fuel ctx cs
+    | .href _ _ cs => printedNL fuel ctx cs
+    | .namePart _ _ abbr cs =>
+      (litsOf cs).map (fun r => ⟨r, abbr, false⟩) ++ (if abbr then [] else printedNL fuel ctx cs)
+def printedNL : Nat → Ctx → List T → List NOcc
+  | 0, _, _ => []
+  | _ + 1, _, [] => []
+  | fuel + 1, ctx, t :: ts => printedN fuel ctx t ++ printedNL fuel ctx ts
+def printedNF : Nat → Ctx → List T → List NOcc
+  | 0, _, _ => []
+  | _ + 1, _, [] => []
+  | fuel + 1, ctx, t :: ts =>
+    match eval fuel ctx t with
+    | .ok r => if truthy r then printedN fuel ctx t else printedNF fuel ctx ts
+    | .error _ => []
+end
+
+/-- the pieces `abbreviate` works on: the text split at every white-space character and hyphen
+outside `Protected`, the separators being pieces of their own -/
+def abbrPieces (t : RT) : List RT := splitF (fun s => splitDelim s []) t
+
+/-- what `abbreviate` makes of one piece: the first character and a period if the piece is
+alphabetic (`str.isalpha` on every part), else the piece itself -/
+def abbrPiece (w : RT) : Str :=
+  if isAlphaTU w then (toStr w).take 1 ++ ['.'] else toStr w
 
 end Pybtex.Tmpl.Spec
